@@ -605,44 +605,33 @@ def register(R):  # noqa: F811
 
 
 # ===========================================================================
-# checker.py: is_sorted  (traverse client rule)
+# checker.py: is_sorted
 def register_is_sorted(R):
-    from contracts.C04 import depth
-    from pyvc.traverse_rule import Rule
-
     def setup(S):
+        # ANY table of (id, parent id) pairs: forests, tables with cycles, dangling parents, ids that are not positions
         n = S.int("n")
-        S.assume(n.z >= 1)
+        S.assume(n.z >= 0)
         ids, pids = S.arr("int", n=n, name="ids"), S.arr("int", n=n, name="pids")
         ids.frozen = pids.frozen = True
-        i = z3.Int("i_is")
-        P = pids.arr
-        R_ = lambda t: z3.And(t >= 0, t < n.z)
-        # the checker walks down from node 0: its domain are single-rooted acyclic tables with ids = positions (any order of rows)
-        S.assume(z3.ForAll([i], z3.Implies(R_(i), z3.Select(ids.arr, i) == i)))
-        S.assume(z3.Select(P, 0) == -1)
-        S.assume(z3.ForAll([i], z3.Implies(z3.And(i > 0, i < n.z), R_(z3.Select(P, i)))))
-        S.assume(depth(0) == 0)
-        S.assume(z3.ForAll([i], z3.Implies(z3.And(i > 0, i < n.z), z3.And(depth(i) == depth(z3.Select(P, i)) + 1, depth(i) > 0))))
         return dict(topology=(ids, pids))
 
-    def J(E, v, ENT, LEFT, ctx):
-        x = z3.Int(fresh_name("x"))
-        ok = z3.ForAll([x], z3.Implies(z3.And(z3.Select(ENT, x), x != ctx.root), z3.Select(ctx.P, x) < x))
-        return to_z3(v["flag"], "bool") == ok
-
-    def Qe(E, v, x, val, ctx):
-        return to_z3(val, "int") == x
-
     def post(E, v, o):
+        # the property's clause "parents precede children": every row that has a parent carries a larger id than that parent
         ids, pids = o["topology"]
-        n, P = ids.nz(), pids.arr
+        n = ids.nz()
         x = z3.Int(fresh_name("x"))
-        return to_z3(v["result"], "bool") == z3.ForAll([x], z3.Implies(z3.And(x > 0, x < n), z3.Select(P, x) < x))
+        every = z3.ForAll([x], z3.Implies(z3.And(x >= 0, x < n), z3.Or(z3.Select(pids.arr, x) == -1, z3.Select(pids.arr, x) < z3.Select(ids.arr, x))))
+        return to_z3(v["result"], "bool") == every
+
+    def is_bool(E, v, o):
+        r = v["result"]
+        return isinstance(r, bool) or (isinstance(r, Sym) and r.kind == "bool")
 
     R.add(f"{CHK}:is_sorted", prop="C18", setup=setup, returns="bool",
-          ensures=[("true-iff-every-parent-precedes-its-child", post)],
-          options=dict(traverse_rule=Rule(J, Qe=Qe, modifies=[("local", "flag", "bool")], enter_kind="int")))
+          ensures=[("true-iff-every-row-with-a-parent-has-a-larger-id-than-its-parent-on-ANY-table", post),
+                   ("answers-with-a-bool", is_bool)],
+          notes="any table: symbolic number of rows (0 included), arbitrary ids and parent ids (forests, cycles, self loops, dangling parents); "
+                "both input columns frozen; no loop, so the answer is given on every table (the former walk from node 0 did not terminate on a cycle)")
 
 
 _reg_4 = register
